@@ -75,6 +75,8 @@ fn field_checks<F: PrimeField + Ord>(ctx: &Ctx, fc: &FieldCase<F>) {
             }
         }
         raws.push(alpha::pow2(64 * (fc.limbs - 1)) - 1u32);
+        // limb patterns (limbs 0 / 2^64-1 / limb of p in runs; repeated and cancelling limbs)
+        raws.extend(alpha::limb_pattern_residues(p, fc.limbs, ctx.tier.pick(2, 3), false));
         for x in raws {
             if &x < p {
                 ints.push((x * &rinv) % p);
